@@ -150,6 +150,7 @@ package dawn
 //@ func (dawn.Target).evaluate
 //@   ensures n_body == old(n_body) + 1 && body_ok == (err == nil) && body_data == data
 //@   ensures fresh-stamp-for-kinds-that-restamp: (restamps(this) && err == nil) ==> (changed && data != tdata(this))
+//@   ensures changed-on-success: err == nil ==> changed
 //@   modifies heap, n_body, body_ok, body_data
 
 //   n_depeval - dependency evaluations requested from the engine by this goroutine
@@ -178,6 +179,7 @@ package dawn
 //@   ensures  fail-no-stamp: (n_body == old(n_body) + 1 && !body_ok) ==> (result != nil && phase == 3 && n_save == old(n_save) + 1 && saved_rerun && saved_data == "")
 //@   ensures  success-recorded: (n_body == old(n_body) + 1 && body_ok && result == nil) ==> (phase == 2 && n_save == old(n_save) + 1 && !saved_rerun && saved_data == t.data && saved_deps == depData)
 //@   ensures  success-stamp: (n_body == old(n_body) + 1 && body_ok && result == nil && t.changed) ==> t.data == body_data
+//@   ensures  changed-after-a-successful-body: (n_body == old(n_body) + 1 && body_ok && result == nil) ==> t.changed
 //@   ensures  restamped-after-execution: (n_body == old(n_body) + 1 && body_ok && result == nil && restamps(t.target)) ==> t.data != info.Data
 //@   callsite TargetUpToDate: assert skip-sound: !proj.always && depsUpToDate && upToDate && !info.Rerun
 //@   callsite TargetEvaluating: assert not-skippable: proj.always || !depsUpToDate || !upToDate || info.Rerun
